@@ -20,8 +20,8 @@ for prop in props:
     for cls in owners[prop]:
         wit = w.get(prop, {}).get(cls)
         prev = old.get((prop, cls))
-        if prev and prev.get('status') == 'fixed':
-            findings.append(prev); continue
+        if prev and (prev.get('status') == 'fixed' or prev.get('witness', {}).get('pinned')):
+            findings.append(prev); continue          # fixed entries and hand-written (pinned) witnesses are kept
         if wit is None:
             if prev: findings.append(prev); print('kept old witness for', prop, cls, file=sys.stderr)
             else: print('NO WITNESS for', prop, cls, file=sys.stderr)
